@@ -25,9 +25,9 @@ m = {
     "setup_cmd": "./setup.sh",
     "hooks": {
         "guard": "verif",
-        "enable": "go build -tags verif: /repo/verif_hooks.go (the only tagged file, added, nothing rewritten) exports executorInsertObject, executorGetPointData and isListElement as VerifInsertObject / VerifPointData / VerifIsListElement for the L2 stitching correspondence (C05, C01); everything else goes through the public API",
+        "enable": "go build -tags verif: /repo/verif_hooks.go (the only tagged file, added, nothing rewritten) exports executorInsertObject, executorGetPointData, isListElement and executorFindInsertionPoints as VerifInsertObject / VerifPointData / VerifIsListElement / VerifFindInsertionPoints for the L2 stitching correspondences (C05, C01, C13); everything else goes through the public API",
         "baseline_off_cmd": BASE,
-        "source_commits": ["2b44aff"],
+        "source_commits": ["2b44aff", "faebf07"],
         "add_only": True,
     },
     "engines": [
